@@ -10,7 +10,12 @@ Expression level
   * `X[k] if k in X else d`                      ->  `X.get(k, d)`
   * `'..{}..'.format(a)`                         ->  f-string (when the format is a literal with plain fields)
   * `x = A if c else B` used as a statement value is kept (no statement rewriting of expressions)
+  * neither operand constant: `b > a` -> `a < b`, `b >= a` -> `a <= b`; operands of == / != ordered by shape (identifiers blanked)
+  * `f'a' + f'b'` -> one f-string;  `X.split(s)[-1]` -> `X.rsplit(s, 1)[-1]`
+  * tests: `E != 0`, `len(X) > 0`, `len(X) >= 1` -> `E` / `len(X)`; `E == 0` -> `not E` (E an int by construction)
 Statement level
+  * `if c: x = True else: x = False` -> `x = c`, `if c: return True else: return False` -> `return c` (c boolean-typed)
+  * a bare `return` in tail position of a function that returns no value is dropped
   * `if not c: A else: B`                        ->  `if c: B else: A`
   * guard clause: `if c: <...exit>` followed by REST  ->  `if c: <...exit> else: REST`
     and `if c: <...exit> else: B` followed by REST      ->  `if c: <...exit> else: B; REST` (either arm)
@@ -46,6 +51,19 @@ def _is_const(e):
 
 
 def _dump(e):
+    return ast.dump(e, annotate_fields=False)
+
+
+def _shape_key(e):
+    """structure of an expression with identifiers blanked (so that a renaming cannot change an ordering)"""
+    e = copy.deepcopy(e)
+    for n in ast.walk(e):
+        if isinstance(n, ast.Name):
+            n.id = "_"
+        elif isinstance(n, ast.Attribute):
+            n.attr = "_"
+        elif isinstance(n, ast.arg):
+            n.arg = "_"
     return ast.dump(e, annotate_fields=False)
 
 
@@ -89,6 +107,59 @@ class ExprCanon(ast.NodeTransformer):
             l, r = node.left, node.comparators[0]
         if isinstance(op, (ast.In, ast.NotIn)) and isinstance(r, (ast.List,)):
             node = _loc(ast.Compare(left=l, ops=[op], comparators=[_loc(ast.Tuple(elts=r.elts, ctx=ast.Load()), r)]), node)
+        # neither side constant: the operands of a symmetric / mirrored comparison in text order
+        op = node.ops[0]
+        l, r = node.left, node.comparators[0]
+        if not _is_const(l) and not _is_const(r):
+            if isinstance(op, (ast.Gt, ast.GtE)):
+                node = _loc(ast.Compare(left=r, ops=[_FLIP[type(op)]()], comparators=[l]), node)
+            elif isinstance(op, (ast.Eq, ast.NotEq)) and _shape_key(l) > _shape_key(r):
+                node = _loc(ast.Compare(left=r, ops=[op], comparators=[l]), node)
+        return node
+
+    def visit_BinOp(self, node):
+        self.generic_visit(node)
+        # adjacent string pieces joined with +  ->  one (f-)string
+        if isinstance(node.op, ast.Add):
+            def pieces(e):
+                if isinstance(e, ast.JoinedStr):
+                    return list(e.values)
+                if isinstance(e, ast.Constant) and isinstance(e.value, str):
+                    return [e]
+                return None
+
+            lp, rp = pieces(node.left), pieces(node.right)
+            if lp is not None and rp is not None:
+                vals = []
+                for v in lp + rp:
+                    if isinstance(v, ast.Constant) and vals and isinstance(vals[-1], ast.Constant):
+                        vals[-1] = _loc(ast.Constant(value=vals[-1].value + v.value), vals[-1])
+                    else:
+                        vals.append(v)
+                if len(vals) == 1 and isinstance(vals[0], ast.Constant):
+                    return _loc(ast.Constant(value=vals[0].value), node)
+                return _loc(ast.JoinedStr(values=vals), node)
+        return node
+
+    def visit_JoinedStr(self, node):
+        self.generic_visit(node)
+        vals = []
+        for v in node.values:
+            if isinstance(v, ast.Constant) and vals and isinstance(vals[-1], ast.Constant):
+                vals[-1] = _loc(ast.Constant(value=vals[-1].value + v.value), vals[-1])
+            else:
+                vals.append(v)
+        node.values = vals
+        return node
+
+    def visit_Subscript(self, node):
+        self.generic_visit(node)
+        # X.split(sep)[-1]  ->  X.rsplit(sep, 1)[-1]
+        v = node.value
+        if isinstance(node.slice, ast.UnaryOp) and isinstance(node.slice.op, ast.USub) and isinstance(node.slice.operand, ast.Constant) and node.slice.operand.value == 1:
+            if isinstance(v, ast.Call) and isinstance(v.func, ast.Attribute) and v.func.attr == "split" and len(v.args) == 1 and not v.keywords:
+                call = _loc(ast.Call(func=_loc(ast.Attribute(value=v.func.value, attr="rsplit", ctx=ast.Load()), v.func), args=[v.args[0], _loc(ast.Constant(value=1), v)], keywords=[]), v)
+                node.value = call
         return node
 
     def visit_BoolOp(self, node):
@@ -307,7 +378,114 @@ def canon_block(stmts):
             res = [swap_if(s)]
         else:
             res.insert(0, swap_if(s) if isinstance(s, ast.If) else s)
-    return res
+    return [_bool_if_deep(s) for s in res]
+
+
+def _certainly_int(e):
+    if isinstance(e, ast.BinOp) and isinstance(e.op, (ast.BitAnd, ast.BitOr, ast.BitXor, ast.LShift, ast.RShift)):
+        return True
+    if isinstance(e, ast.Call) and isinstance(e.func, ast.Name) and e.func.id == "len" and len(e.args) == 1:
+        return True
+    return False
+
+
+def truth_form(t):
+    """equivalent test in a boolean context: `E != 0` / `len(X) > 0` / `len(X) >= 1` -> `E`; `E == 0` -> `not E`"""
+    if isinstance(t, ast.BoolOp):
+        t.values = [truth_form(v) for v in t.values]
+        return t
+    if isinstance(t, ast.UnaryOp) and isinstance(t.op, ast.Not):
+        t.operand = truth_form(t.operand)
+        return t
+    if isinstance(t, ast.Compare) and len(t.ops) == 1 and _certainly_int(t.left) and isinstance(t.comparators[0], ast.Constant) and type(t.comparators[0].value) is int:
+        op, c = t.ops[0], t.comparators[0].value
+        nonneg = isinstance(t.left, ast.Call) or (isinstance(t.left, ast.BinOp) and isinstance(t.left.op, ast.BitAnd) and any(isinstance(x, ast.Constant) and isinstance(x.value, int) and x.value >= 0 for x in (t.left.left, t.left.right)))
+        if (isinstance(op, ast.NotEq) and c == 0) or (nonneg and ((isinstance(op, ast.Gt) and c == 0) or (isinstance(op, ast.GtE) and c == 1))):
+            return t.left
+        if (isinstance(op, ast.Eq) and c == 0) or (nonneg and ((isinstance(op, ast.LtE) and c == 0) or (isinstance(op, ast.Lt) and c == 1))):
+            return _loc(ast.UnaryOp(op=ast.Not(), operand=t.left), t)
+    return t
+
+
+class _Tests(ast.NodeTransformer):
+    def _t(self, node):
+        self.generic_visit(node)
+        node.test = truth_form(node.test)
+        return node
+
+    visit_If = visit_While = visit_IfExp = visit_Assert = _t
+
+    def visit_comprehension(self, node):
+        self.generic_visit(node)
+        node.ifs = [truth_form(x) for x in node.ifs]
+        return node
+
+
+def _boolean_typed(e):
+    if isinstance(e, ast.Compare):
+        return True
+    if isinstance(e, ast.UnaryOp) and isinstance(e.op, ast.Not):
+        return True
+    if isinstance(e, ast.BoolOp):
+        return all(_boolean_typed(v) for v in e.values)
+    if isinstance(e, ast.Call) and isinstance(e.func, ast.Name) and e.func.id in ("isinstance", "bool", "callable", "hasattr", "issubclass", "all", "any"):
+        return True
+    if isinstance(e, ast.Constant) and isinstance(e.value, bool):
+        return True
+    return False
+
+
+def _bool_const(e):
+    return isinstance(e, ast.Constant) and isinstance(e.value, bool)
+
+
+def _bool_if(s):
+    """`if c: x = True else: x = False` -> `x = c`; `if c: return True else: return False` -> `return c` (c boolean-typed)"""
+    if not (isinstance(s, ast.If) and len(s.body) == 1 and len(s.orelse) == 1 and _boolean_typed(s.test)):
+        return s
+    b, o = s.body[0], s.orelse[0]
+    if isinstance(b, ast.Return) and isinstance(o, ast.Return) and _bool_const(b.value) and _bool_const(o.value) and b.value.value != o.value.value:
+        val = s.test if b.value.value else ExprCanon().visit(ast.fix_missing_locations(negate(copy.deepcopy(s.test))))
+        return _loc(ast.Return(value=val), s)
+    if isinstance(b, ast.Assign) and isinstance(o, ast.Assign) and len(b.targets) == 1 and len(o.targets) == 1 and _dump(b.targets[0]) == _dump(o.targets[0]) and _bool_const(b.value) and _bool_const(o.value) and b.value.value != o.value.value:
+        val = s.test if b.value.value else ExprCanon().visit(ast.fix_missing_locations(negate(copy.deepcopy(s.test))))
+        return _loc(ast.Assign(targets=b.targets, value=val), s)
+    return s
+
+
+def _bool_if_deep(s):
+    if isinstance(s, ast.If):
+        s.body = [_bool_if_deep(x) for x in s.body]
+        s.orelse = [_bool_if_deep(x) for x in s.orelse]
+    return _bool_if(s)
+
+
+def _strip_tail_returns(stmts):
+    """a bare `return` in tail position of a function body is the same as falling off the end"""
+    if not stmts:
+        return stmts
+    last = stmts[-1]
+    if isinstance(last, ast.Return) and (last.value is None or (isinstance(last.value, ast.Constant) and last.value.value is None)):
+        return stmts[:-1] or [_loc(ast.Pass(), last)]
+    if isinstance(last, ast.If):
+        last.body = _strip_tail_returns(last.body)
+        if last.orelse:
+            last.orelse = _strip_tail_returns(last.orelse)
+    elif isinstance(last, (ast.With, ast.AsyncWith)):
+        last.body = _strip_tail_returns(last.body)
+    return stmts
+
+
+def _returns_value(fnode):
+    todo = list(fnode.body)
+    while todo:
+        n = todo.pop()
+        if isinstance(n, (ast.FunctionDef, ast.AsyncFunctionDef, ast.Lambda, ast.ClassDef)):
+            continue
+        if isinstance(n, ast.Return) and n.value is not None and not (isinstance(n.value, ast.Constant) and n.value.value is None):
+            return True
+        todo.extend(ast.iter_child_nodes(n))
+    return False
 
 
 def _only_pass(stmts):
@@ -355,7 +533,11 @@ def swap_if(s):
 
 def canon_stmt(s):
     if isinstance(s, (ast.FunctionDef, ast.AsyncFunctionDef)):
+        if not _returns_value(s):
+            s.body = _strip_tail_returns(s.body)
         s.body = canon_block(s.body)
+        if not _returns_value(s):
+            s.body = canon_block(_strip_tail_returns(s.body))
     elif isinstance(s, ast.ClassDef):
         s.body = [canon_stmt(x) for x in s.body]
     elif isinstance(s, ast.If):
@@ -377,6 +559,7 @@ def canon_stmt(s):
 
 def canonicalise(tree):
     tree = ExprCanon().visit(tree)
+    tree = _Tests().visit(tree)
     tree.body = [canon_stmt(s) for s in tree.body]
     ast.fix_missing_locations(tree)
     return tree
